@@ -276,9 +276,7 @@ macro_rules! impl_cache {
                 Q: core::hash::Hash + Eq + ?Sized,
             {
                 let (index, conflict) = self.key_to_hash.build_key(key);
-                self.store
-                    .get(&index, conflict)
-                    .and_then(|_| self.store.expiration(&index).map(|time| time.get_ttl()))
+                self.store.get(&index, conflict).map(|v| v.ttl())
             }
 
             /// `max_cost` returns the max cost of the cache.
@@ -602,9 +600,7 @@ macro_rules! impl_async_cache {
                 Q: core::hash::Hash + Eq + ?Sized,
             {
                 let (index, conflict) = self.key_to_hash.build_key(key);
-                self.store
-                    .get(&index, conflict)
-                    .and_then(|_| self.store.expiration(&index).map(|time| time.get_ttl()))
+                self.store.get(&index, conflict).map(|v| v.ttl())
             }
 
             /// `max_cost` returns the max cost of the cache.
